@@ -5,7 +5,7 @@ import props.cpu_common as cc
 
 MANIFEST = {
     "level": "proof",
-    "text": "In the per-opcode lemmas every bus access performed by the real sub-instructions is a ghost event tagged with the machine cycle (the ordinal of the ExecuteMachineCycle call) in which it happens; for every opcode the list of data accesses (kind, address term, cycle) is proved equal to the documented list (LD A,(nn) read in cycle 4, PUSH writes in 3 and 4, INC (HL) read 2 / write 3, CB (HL) read 3 / write 4, CALL writes 5 and 6, RET cc reads 3 and 4, LD (nn),SP writes 4 and 5, ...), for all register and operand values. Operand fetches from the instruction stream are not constrained in time (the statement speaks of accesses through an address). The accesses aspect compares, for every documented access, its kind, its machine cycle and its address. Outside instructions: a sleeping CPU (HALT, STOP) and the wake-up cycle make no bus access, and an interrupt dispatch makes exactly its two pushes in 5 cycles (clauses of the HALT and dispatch lemmas).",
+    "text": "In the per-opcode lemmas every bus access performed by the real sub-instructions is a ghost event tagged with the machine cycle (the ordinal of the ExecuteMachineCycle call) in which it happens; for every opcode the list of data accesses (kind, address term, cycle) is proved equal to the documented list (LD A,(nn) read in cycle 4, PUSH writes in 3 and 4, INC (HL) read 2 / write 3, CB (HL) read 3 / write 4, CALL writes 5 and 6, RET cc reads 3 and 4, LD (nn),SP writes 4 and 5, ...), for all register and operand values. Operand fetches from the instruction stream are not constrained in time (the statement speaks of accesses through an address). The accesses aspect compares, for every documented access, its kind, its machine cycle and its address. Outside instructions: a sleeping CPU (HALT, STOP) and the wake-up cycle make no bus access, and an interrupt dispatch makes exactly its two pushes in 5 cycles (clauses of the HALT and dispatch lemmas). The same lemmas prove what the hook is told: every address passed to TriggerWriteCorruption is a value the stepped 16-bit register (BC, DE, HL or SP, by the documented opcode table) holds before one of its steps in that instruction, and opcodes that step no 16-bit register trigger nothing.",
     "note": "Same trusted base and hypotheses as C01. The documented access table is spec/sm83.py (Appendix C of DESIGN.md).",
     "technique": "per-opcode lemmas with a cycle-tagged ghost bus trace over the real go/ssa; z3",
     "design_ref": "DESIGN.md section 4 C03",
